@@ -203,6 +203,10 @@ def histogram(a, bins=None, range=None, normed=False, weights=None, density=None
 
     if weights is not None and weights.chunks != a.chunks:
         raise ValueError("Input array and weights must have the same chunked structure")
+    if weights is not None:
+        # a's blocks are paired with the weights' blocks one to one: pin both
+        # layouts, so a rewrite of either onto other chunks cannot unpair them
+        a, weights = a.freeze_chunks(), weights.freeze_chunks()
 
     if normed is not False:
         raise ValueError(
